@@ -61,7 +61,7 @@ def run(prog: Program, rep: Report, tier: str) -> None:
     rep.rule("R15.4", "clamp before use: the temperature in the key is max when target > max, min when target < min, else the target", 30)
     rep.rule("R15.5", "unsupported mode raises RuntimeError before any IR lookup", 10)
     rep.rule("R15.6", "payload = 00000000 ++ hex(text(Para ++ '|' ++ HexCode)) of the entry under the final key, and the length field is the little-endian 16-bit payload size for every size", 3)
-    rep.rule("R15.7", "capabilities are read from the set: toggle type from OnOffType == 1, separate-swing flag from membership of IRSetID in the special list, each wave stored under its own key with its own Para/HexCode", 3)
+    rep.rule("R15.7", "capabilities are read from the set: toggle type from OnOffType == 1, separate-swing flag from membership of IRSetID in the special list, each wave stored under its own key with its own Para/HexCode, temperature range = min and max (updated independently) of the numeric key[2:4]", 4)
     rep.rule("R15.8", "remote cache: get_remote constructs from the loaded set's entry for remote_id, stores it under and returns it by the same id", 1)
     rep.explanation = (
         "Decides structural clauses on every control-flow path of build_command / build_swing_command / SwitcherBreezeCommand / get_remote, with mode, power state, swing, toggle type and previous state "
@@ -297,36 +297,86 @@ def swing_command_rule(prog: Program, rep: Report) -> None:
 
 
 def capabilities_rule(prog: Program, rep: Report) -> None:
-    """R15.7 (shape only), decided on the syntax tree of __init__ / _resolve_capabilities."""
+    """R15.7: what the constructor derives from an IR set, decided by interpreting __init__ and
+    _resolve_capabilities on a symbolic set with zero or one wave."""
     ci = prog.cls(f"{REMOTES}:SwitcherBreezeRemote")
-    init = ci.find_method("__init__")
-    res = ci.find_method("_resolve_capabilities")
-    if init is None or res is None:
-        rep.undecided("R15.7", "capabilities", "-", "anchor vanished: __init__ / _resolve_capabilities")
+    where = f"{loc(ci, ci.node)} SwitcherBreezeRemote.__init__/_resolve_capabilities"
+    I = Interp(prog, max_paths=50000, unroll=1)
+    st = I.new_state()
+    irs = ("sym", "ir_set", "json")
+    outs = I.construct(ci, [irs], {}, st, Ctx(None, ci.module, 0), ci.node)
+    rets = [o for o in outs if o.kind == "return"]
+    if not rets:
+        rep.bad("R15.7", "constructor", where, "SwitcherBreezeRemote(ir_set) never returns", key="R15.7|noreturn")
         return
-    wi = f"{loc(init, init.node)} {init.qualname}"
-    wr = f"{loc(res, res.node)} {res.qualname}"
-    # toggle type
-    ok_t = False
-    for n in ast.walk(res.node):
-        if isinstance(n, ast.If) and ast.unparse(n.test).replace('"', "'") in ("ir_set['OnOffType'] == 1", "1 == ir_set['OnOffType']"):
-            ok_t = any(isinstance(s, ast.Assign) and ast.unparse(s) == "self._on_off_type = True" for s in n.body)
-        if isinstance(n, ast.Assign) and ast.unparse(n.targets[0]) == "self._on_off_type" and ast.unparse(n.value).replace('"', "'") == "ir_set['OnOffType'] == 1":
-            ok_t = True
-    default_false = any(isinstance(n, ast.Assign) and ast.unparse(n) == "self._on_off_type = False" for n in ast.walk(init.node))
-    rep.check(ok_t and default_false, "R15.7", "toggle type from OnOffType == 1", wr, "the toggle flag is not (only) set from ir_set['OnOffType'] == 1 with default False", key="R15.7|toggle")
-    # separate swing flag
-    ok_s = any(isinstance(n, ast.Assign) and ast.unparse(n.targets[0]) == "self._separated_swing_command" and ast.unparse(n.value).replace("\n", "") in ("self._remote_id in SPECIAL_SWING_COMMAND_REMOTE_IDS",) for n in ast.walk(init.node))
-    ok_id = any(isinstance(n, (ast.Assign, ast.AnnAssign)) and ast.unparse(n.targets[0] if isinstance(n, ast.Assign) else n.target) == "self._remote_id" and ast.unparse(n.value).replace('"', "'") == "ir_set['IRSetID']" for n in ast.walk(init.node))
-    rep.check(ok_s and ok_id, "R15.7", "separate-swing flag from IRSetID membership", wi, "the separate-swing flag is not `IRSetID in SPECIAL_SWING_COMMAND_REMOTE_IDS`", key="R15.7|separated")
-    # wave map
-    ok_w = False
-    for n in ast.walk(res.node):
-        if isinstance(n, ast.Assign) and ast.unparse(n.targets[0]) == "self._ir_wave_map[key]" and isinstance(n.value, ast.Dict):
-            d = {ast.unparse(k).strip("'\""): ast.unparse(v).replace('"', "'") for k, v in zip(n.value.keys, n.value.values)}
-            ok_w = d == {"Para": "wave['Para']", "HexCode": "wave['HexCode']"}
-    key_ok = any(isinstance(n, ast.Assign) and ast.unparse(n).replace('"', "'") == "key = wave['Key']" for n in ast.walk(res.node))
-    rep.check(ok_w and key_ok, "R15.7", "each wave stored under its key with its own Para/HexCode", wr, "the wave map entry is not {'Para': wave['Para'], 'HexCode': wave['HexCode']} under wave['Key']", key="R15.7|wavemap")
+    onoff = ("item", irs, T.seq("s", (("L", "OnOffType"),)))
+    setid = ("item", irs, T.seq("s", (("L", "IRSetID"),)))
+    special = prog.const(f"{REMOTES}:SPECIAL_SWING_COMMAND_REMOTE_IDS")
+    bad_t = bad_s = bad_w = bad_r = None
+    n_temp = n_wave = 0
+    for o in rets:
+        ho = o.state.heap[o.value[1]]
+        pcs = flat(o.state.pc)
+        # toggle type
+        is1 = ("cmp", "==", onoff, c(1)) in pcs
+        not1 = ("cmp", "!=", onoff, c(1)) in pcs
+        tv = ho.fields.get("_on_off_type")
+        if not ((is1 and tv == c(True)) or (not1 and tv == c(False))):
+            bad_t = f"toggle flag is {T.show(tv) if tv else None} on a path where OnOffType == 1 is {is1} / != 1 is {not1}"
+        # separate swing
+        sv = ho.fields.get("_separated_swing_command")
+        okS = isinstance(sv, tuple) and sv[:3] == ("cmp", "in", setid) and isinstance(sv[3], tuple) and sv[3][0] == "tuple" and {x[2][0][1] for x in sv[3][1] if T.is_seq(x) and x[2]} == set(special)
+        if not okS:
+            bad_s = f"separate-swing flag is {T.show(sv)[:160] if sv else None}; expected IRSetID in SPECIAL_SWING_COMMAND_REMOTE_IDS"
+        if ho.fields.get("_remote_id") != setid:
+            bad_s = bad_s or f"remote id is {T.show(ho.fields.get('_remote_id'))[:80]}, not ir_set['IRSetID']"
+        # one wave
+        waves = [g for g in o.state.pc if isinstance(g, tuple) and g and g[0] == "itercount" and g[2] >= 1]
+        if not waves:
+            if ho.fields.get("_min_temp") != c(100) or ho.fields.get("_max_temp") != c(-100):
+                pass  # sentinels are an implementation choice; nothing to decide without waves
+            continue
+        n_wave += 1
+        wave = ("sym", f"{T.show(waves[0][1])}[0]", ("elemof", waves[0][1]))
+        key = ("item", wave, T.seq("s", (("L", "Key"),)))
+        stores = [e for e in o.state.events if e.kind == "storeitem" and isinstance(e.result, tuple) and e.result == ho.fields.get("_ir_wave_map")]
+        okw = len(stores) == 1 and stores[0].args[0] == key and stores[0].args[1][0] == "obj"
+        if okw:
+            ent = dict((k[1] if T.is_c(k) else T.show(k), v) for k, v in o.state.heap[stores[0].args[1][1]].items)
+            okw = ent == {"Para": ("item", wave, T.seq("s", (("L", "Para"),))), "HexCode": ("item", wave, T.seq("s", (("L", "HexCode"),)))}
+        if not okw:
+            bad_w = f"wave map after one wave: {[(T.show(e.args[0])[:60], T.show(e.args[1])[:40]) for e in stores]}; expected map[wave['Key']] = {{'Para': wave['Para'], 'HexCode': wave['HexCode']}}"
+        # temperature range: both bounds examined independently for every digit temperature
+        digit = [g for g in pcs if isinstance(g, tuple) and g[:1] == ("truthy",) and isinstance(g[1], tuple) and g[1][:2] == ("app", ".isdigit")]
+        if digit:
+            n_temp += 1
+            ttxt = digit[0][1][2]
+            t = ("app", "int", ttxt)
+            mx0, mn0 = None, None
+            gmax = [g for g in pcs if isinstance(g, tuple) and g[0] == "cmp" and g[2] == t and T.is_c(g[3]) and g[1] in (">", "<=") and g[3][1] < 0]
+            gmin = [g for g in pcs if isinstance(g, tuple) and g[0] == "cmp" and g[2] == t and T.is_c(g[3]) and g[1] in ("<", ">=") and g[3][1] > 0]
+            fmax, fmin = ho.fields.get("_max_temp"), ho.fields.get("_min_temp")
+            if not gmax or not gmin:
+                bad_r = (f"for a wave with a numeric temperature the {'upper' if not gmax else 'lower'} bound of the range is not examined on a path "
+                         f"(guards {[T.show(g)[:60] for g in pcs if isinstance(g, tuple) and g[0] == 'cmp' and g[2] == t]}): a temperature that extends one bound can never extend the other, "
+                         f"so the first temperature seen (max starts below min) updates only one of them and the reported range is wrong")
+            else:
+                up = gmax[0][1] == ">"
+                dn = gmin[0][1] == "<"
+                if (fmax == t) != up or (fmin == t) != dn or (not up and fmax != gmax[0][3]) or (not dn and fmin != gmin[0][3]):
+                    bad_r = f"range after one wave with temperature t: max={T.show(fmax)[:40]} min={T.show(fmin)[:40]} under t>max0={up}, t<min0={dn}"
+            if ttxt != ("app", "slice", key, c(2), c(4)):
+                bad_r = bad_r or f"temperature is read from {T.show(ttxt)[:80]}, expected characters 2..4 of the wave key"
+    rep.check(bad_t is None, "R15.7", "toggle type from OnOffType == 1", where, bad_t or "", key="R15.7|toggle")
+    rep.check(bad_s is None, "R15.7", "separate-swing flag from IRSetID membership", where, bad_s or "", key="R15.7|separated")
+    if n_wave == 0:
+        rep.undecided("R15.7", "wave map", where, "no path with one wave explored")
+    else:
+        rep.check(bad_w is None, "R15.7", "each wave stored under its key with its own Para/HexCode", where, bad_w or "", key="R15.7|wavemap")
+    if n_temp == 0:
+        rep.undecided("R15.7", "temperature range", where, "no path with a numeric temperature explored")
+    else:
+        rep.check(bad_r is None, "R15.7", "temperature range: min and max updated independently from key[2:4]", where, bad_r or "", f"{n_temp} paths", key="R15.7|range")
 
 
 def cache_rule(prog: Program, rep: Report) -> None:
